@@ -159,6 +159,10 @@ class RefEval:
     def fits(self, m):
         if not is_sym(m):
             return -MAX96 <= m <= MAX96
+        import models
+        b = models.int_bounds(m)
+        if b is not None and -MAX96 <= b[0] and b[1] <= MAX96:
+            return True
         return self.truth(z3.And(m >= -MAX96, m <= MAX96))
 
     def is_zero(self, m):
